@@ -19,9 +19,15 @@ from pycoin.networks.Contract import Contract
 MANIFEST = {
     "text": "Lean theorems over the model of every ParseAPI entry point (total functions text -> Except Err (Option Obj)): no parser takes an "
             "exception branch, accepted WIF/extended-key/address text has exactly the kind's payload length and in-range contents and "
-            "re-serialises to itself, and a kernel-decided table theorem that on every network two checksummed kinds are separated by "
+            "re-serialises to itself (extended keys: outside the explicitly named class of the open finding extkey-version-marker-mismatch), accepted "
+            "SEC text, public pairs, secret exponents, P:/H: seeds (= the BIP32 master of the seed bytes) and Electrum E: forms have in-range "
+            "contents (1 <= se < n, coordinates < p, point on the curve) and the object's own text parses back to an equal object "
+            "(C18_<kind>_reserialises / C18_<kind>_refuses, under KeyLaws: points_for_x / contains_point / se*G facts as hypotheses), and a kernel-decided table theorem that on every network two checksummed kinds are separated by "
             "prefix or payload length; model tied to the code by differential correspondence over all entry points x all networks.",
-    "note": "Python's int()/str.upper()/str.split() on non-ASCII digits and letters are outside the model (exercised by the totality oracle only). "
+    "note": "The re-serialisation theorems take the curve object as a parameter with the laws KeyLaws (points_for_x returns the two reduced points of an x, a reduced "
+            "curve point is one of them, se*G is reduced, p and n at most 2^256, HMAC-SHA512 yields 64 bytes), as CodecLaws does for the codecs; a toy instance "
+            "shows them satisfiable, the secp256k1 instance is C02/C10's. Electrum wallets re-serialise as plain keys (kind not compared). "
+            "Python's int()/str.upper()/str.split() on non-ASCII digits and letters are outside the model (exercised by the totality oracle only). "
             "The Groestlcoin family (grs, tgrs, grsrt; coins/groestlcoin/parse.py) runs and is modelled under the stand-in of translate/grs_stub.py "
             "for the absent groestlcoin_hash package: which checksum hash each code path of a network uses is a probed field of the table, and a "
             "kernel-decided table theorem says every producing closure uses the hash the network's parser accepts.",
@@ -450,6 +456,19 @@ def _gen(ctx, emit):
         for e in ("electrum_seed", "hierarchical_key", "call"):
             emit("c18parse btc %s %s" % (e, th(t)))
     emit("c18parse xtn electrum_seed %s" % th("E:ffffffffffffffffffffffffffffffff"))
+    # Electrum public keys with coordinates at the field boundary: x, x+p (refused), y+p where it fits, p itself, 2^256-1
+    gobj = NETS["btc"].generator
+    for x in [1, 2, 3, 4, 6] + [rng.randrange(1, 2 ** 32) for _ in range(ctx.n(6, 60))]:
+        try:
+            pts = gobj.points_for_x(x)
+        except ValueError:
+            continue
+        for (_, y) in pts:
+            for (xx, yy) in ((x, y), (x + P, y), (x, y + P), (x + P, y + P), (P, y), (x, P), (2 ** 256 - 1, y)):
+                if xx < 2 ** 256 and yy < 2 ** 256:
+                    for nm in ("btc", rng.choice(["xtn", "ltc", "polis", "grs"])):
+                        for e in ("electrum_pub", "hierarchical_key", "call"):
+                            emit("c18parse %s %s %s" % (nm, e, th("E:%064x%064x" % (xx, yy))))
 
     # 6. one parseable_str object through several networks' parsers (every family of entry point)
     gen_history(ctx, emit, "c18history", ["address", "payable", "call", "wif", "private_key", "secret", "bip32", "bip32_prv", "hierarchical_key", "p2sh", "public_key"])
